@@ -194,6 +194,9 @@ def apply_transform(obj, name, args):
         return obj.update_checks([world.build_check(c, "pandas") for c in args["checks"]])
     if name == "set_checks":
         return obj.set_checks([world.build_check(c, "pandas") for c in args["checks"]])
+    if name == "share_columns":
+        # a second schema built by the user from the *same* Column objects (so the same Check and dtype instances)
+        return type(obj)(columns=dict(obj.columns), strict=args.get("strict", False), coerce=args.get("coerce", False), name="S2")
     if name == "copy":
         return copy.copy(obj)
     if name == "deepcopy":
@@ -231,7 +234,7 @@ NONTRANSFORMING = ["validate", "validate_fault", "coerce_dtype", "to_yaml", "to_
                    "statistics", "strategy", "str_repr", "compare", "copy_ops", "pickle", "introspect", "call_check", "decorators",
                    "model_ops", "subclass_model", "infer_like_io"]
 TRANSFORMING = ["add_columns", "remove_columns", "update_column", "update_columns", "rename_columns", "select_columns",
-                "set_index", "reset_index", "update_checks", "set_checks", "copy", "deepcopy"]
+                "set_index", "reset_index", "update_checks", "set_checks", "copy", "deepcopy", "share_columns"]
 DISK_FAULTS = [None, None, {"kind": "open_oserror"}, {"kind": "open_permission"}, {"kind": "enospc", "after": 40},
                {"kind": "eio", "after": 10}, {"kind": "short_write"}]
 
@@ -737,6 +740,11 @@ def gen_transform_args(name, s, rng):
     invalid = rng.random() < 0.3
     if name in ("copy", "deepcopy"):
         return {}
+    if name == "share_columns":
+        import pandera.polars as pap0
+        if isinstance(o, type) or not isinstance(o, (pa.DataFrameSchema, pap0.DataFrameSchema)) or isinstance(o, pa.MultiIndex):
+            return None
+        return {"strict": rng.random() < 0.3, "coerce": rng.random() < 0.4}
     if name in ("update_checks", "set_checks"):
         if not hasattr(o, name) or s.spec["backend"] != "pandas":
             return None
